@@ -262,6 +262,10 @@ def accept_for(key16):
     return base64.b64encode(hashlib.sha1(key + b"258EAFA5-E914-47DA-95CA-C5AB0DC85B11").digest())
 
 
+import weakref
+_HOLDERS = weakref.WeakKeyDictionary()
+
+
 def run_impl(sc, url="ws://example.test/chat", ws_kwargs=None, check_alias=True):
     """Execute scenario on the real code. Returns Run (trace in .trace)."""
     import lomond.session as S
@@ -269,23 +273,47 @@ def run_impl(sc, url="ws://example.test/chat", ws_kwargs=None, check_alias=True)
     import lomond.websocket as W
     from lomond import errors
 
+    # what happened earlier in this process: other connections (of other WebSocket objects) run to their end first
+    for prev in sc.get("previously", ()):
+        try:
+            run_impl(prev, url=url, ws_kwargs=ws_kwargs, check_alias=check_alias)
+        except BaseException:
+            pass
     run = Run(sc)
     key16 = sc.get("key16", b"\x01" * 16)
 
-    class Sess(S.WebsocketSession):
-        def _connect(self):
-            how = sc.get("connect", "ok")
-            if how == "sockfail":
-                self._socket_fail("unable to connect")
-            if how == "exc":
-                # also exceptions without any text, and with format characters
-                raise [ValueError("connect exploded"), RuntimeError(), ConnectionResetError(), ValueError("{bad} %s"), OSError()][sc.get("salt", 0) % 5]
-            run.sock = (TlsLikeSocket if sc.get("tls_like") else SimSocket)(run)
-            return run.sock, None
+    # one session class per WebSocket object, as an application has: a reconnect passes the SAME class to connect() again
+    try:
+        holder = _HOLDERS.get(sc["_ws_object"]) if sc.get("_ws_object") is not None else None
+    except TypeError:
+        holder = None
+    if holder is None:
+        holder = {}
 
-        def _selector_cls(self, sock):
-            run.selector = SimSelector(sock, run)
-            return run.selector
+        class Sess(S.WebsocketSession):
+            def _connect(self):
+                sc, run = holder["sc"], holder["run"]
+                how = sc.get("connect", "ok")
+                if how == "sockfail":
+                    self._socket_fail("unable to connect")
+                if how == "exc":
+                    # also exceptions without any text, and with format characters
+                    raise [ValueError("connect exploded"), RuntimeError(), ConnectionResetError(), ValueError("{bad} %s"), OSError()][sc.get("salt", 0) % 5]
+                run.sock = (TlsLikeSocket if sc.get("tls_like") else SimSocket)(run)
+                return run.sock, None
+
+            def _selector_cls(self, sock):
+                run = holder["run"]
+                run.selector = SimSelector(sock, run)
+                return run.selector
+        holder["cls"] = Sess
+    holder["sc"], holder["run"] = sc, run
+    Sess = holder["cls"]
+    if sc.get("_ws_object") is not None:
+        try:
+            _HOLDERS[sc["_ws_object"]] = holder     # kept outside the WebSocket object: the C17 inventory walks that object
+        except TypeError:
+            pass
 
     import lomond.compression as C
     old_zlib = C.zlib
